@@ -22,6 +22,7 @@ pub async fn run(op: &str, a: &[String]) -> Option<Vec<String>> {
         "reload" => reload(a).await,
         "builder" => builder(a).await,
         "alpn" => alpn(a).await,
+        "migration" => migration(a).await,
         _ => return None,
     })
 }
@@ -1222,6 +1223,42 @@ async fn alpn(a: &[String]) -> Vec<String> {
 }
 
 // ---------------------------------------------------------------------------------------------
+// migration  <default|allow|deny>
+//
+// What the server configuration hands to the QUIC stack for connection migration, read back from
+// the built configuration (`ServerConfig::quic_config()`, whose `Debug` names the field).
+// obs: `migration=<true|false|?>`.
+
+async fn migration(a: &[String]) -> Vec<String> {
+    let how = arg(a, 0).to_string();
+    let built = trap_sync(|| {
+        let id = wtransport::Identity::self_signed(["localhost"]).map_err(|e| format!("identity:{e}"))?;
+        let b = ServerConfig::builder().with_bind_default(0).with_identity(id);
+        let b = match how.as_str() {
+            "allow" => b.allow_migration(true),
+            "deny" => b.allow_migration(false),
+            // set one way and then the other: the last request counts
+            "allow_then_deny" => b.allow_migration(true).allow_migration(false),
+            "deny_then_allow" => b.allow_migration(false).allow_migration(true),
+            _ => b,
+        };
+        let cfg = b.build();
+        Ok::<String, String>(format!("{:?}", cfg.quic_config()))
+    });
+    let dbg = match built {
+        Ok(Ok(d)) => d,
+        Ok(Err(e)) => return vec!["migration=-".into(), format!("err={e}")],
+        Err(t) => return vec![format!("migration={t}")],
+    };
+    let v = match dbg.find("migration: ") {
+        Some(i) if dbg[i + 11..].starts_with("true") => "true",
+        Some(i) if dbg[i + 11..].starts_with("false") => "false",
+        _ => "?",
+    };
+    vec![format!("migration={v}")]
+}
+
+// ---------------------------------------------------------------------------------------------
 // generators
 
 fn s<T: ToString>(x: T) -> String {
@@ -1272,6 +1309,9 @@ fn gen_c20(emit: &mut dyn FnMut(&str, Vec<String>)) {
     }
     for rebind in ["false", "true"] {
         emit("reload", vec![s(rebind)]);
+    }
+    for how in ["default", "allow", "deny", "allow_then_deny", "deny_then_allow"] {
+        emit("migration", vec![s(how)]);
     }
     for which in ["server", "client"] {
         for path in ["custom_tls", "custom_transport", "custom_tls_and_transport", "quic_config", "socket"] {
